@@ -123,7 +123,7 @@ PROPS["C02"] = dict(
 LEVEL_TEXT["C02"] = "Exhaustive enumeration of shaped bit vectors x tail states x every selection structure, parameter value and nesting order, every rank r compared with the reference position lists."
 TECHNIQUE["C02"] = "bounded-exhaustive enumeration of inputs x configurations against a linear-scan reference model"
 
-EF_RULE = "case = (monotone sequence, upper bound u, builder); families: (a) ALL non-decreasing sequences of length <= N over 0..=M x several u; (b) (n,u) split probes n*2^k-1, n*2^k, n*2^k+1 for all k plus 2^63-1, 2^63, MAX-1, MAX with values spread to end exactly at u, all-0 and all-u; (c) n=0 and n=1 for u in {0,1,5,2^40,MAX-1,MAX}; (d) l=0 duplicate runs crossing word boundaries; (e) 4096+-1 / 8192+-1 elements (inventory quantum of the default selectors); (f) two clusters 2^20 / 2^40 apart; (g) clustered sequences of 66..260 (thorough 520) elements (head of 1 / 2 / n/2 / n-2 small values, the rest just below u; three clusters) so that runs of empty high-bit buckets span one or more whole 64-bit words of the upper-bits array; every case is run on 5-7 selection back-ends; non-trivial = at least two distinct values"
+EF_RULE = "case = (monotone sequence, upper bound u, builder); families: (a) ALL non-decreasing sequences of length <= N over 0..=M x several u; (b) (n,u) split probes n*2^k-1, n*2^k, n*2^k+1 for all k plus 2^63-1, 2^63, MAX-1, MAX with values spread to end exactly at u, all-0 and all-u; (c) n=0 and n=1 for u in {0,1,5,2^40,MAX-1,MAX}; (d) l=0 duplicate runs crossing word boundaries; (e) 4096+-1 / 8192+-1 elements (inventory quantum of the default selectors); (f) two clusters 2^20 / 2^40 apart; (g) clustered sequences of 66..260 (thorough 520) elements (head of 1 / 2 / n/2 / n-2 small values, the rest just below u; three clusters) so that runs of empty high-bit buckets span one or more whole 64-bit words of the upper-bits array; (h) size class: 40 000 and 70 001 (thorough also 22 000, 140 000) elements - a dense run followed by an outlier, two distant clusters, an arithmetic progression with a loose u - so that the selectors on the upper bits hold many inventory entries of the wider span classes; every case is run on 5-7 selection back-ends; non-trivial = at least two distinct values"
 PROPS["C03"] = dict(
     level="exploration",
     engine="E1",
